@@ -24,7 +24,6 @@ RULE = (
 ASSUMPTIONS = [
     "outputs are decompressed with the standard library codecs (zstd: backports.zstd) and parsed by independent strict readers",
     "a '.fastq' output name with FASTA input, and output pairs that ask for two different formats, are not documented requests and are not generated",
-    "FASTA interleaved input is not combined with several cores (known finding KF-C06-1 of C06)",
     "simulation kernel/SimFS as for C06",
 ]
 
@@ -89,8 +88,6 @@ def make_variant(base, rng, reference=False):
     cores = 1
     if not reference and rng.random() < 0.5:
         cores = base["knobs"]["workers"]
-    if layout == "interleaved" and v["fmt"] == "fasta" and cores > 1:
-        cores = 1  # KF-C06-1
     nfiles = 2 if layout == "two" else 1
     conts = [""] * nfiles if reference else [rng.choice(IN_CONTAINERS) for _ in range(nfiles)]
     members = [rng.randint(2, 4) if (c and rng.random() < 0.4) else 1 for c in conts]
